@@ -448,6 +448,12 @@ PROPS["C07"] = {
               "None below 20 bytes", bound="19 bytes symbolic", module="transports::ice::shared_tcp"),
             K("username attribute length past the end (literal framing)", "c07_username_len_past_end_literal", "quick", "bounded", ["username_from_stun_bytes"],
               "the scan stops, no panic, None", bound="32-byte message, USERNAME length octet symbolic >= 9", module="transports::ice::shared_tcp", timeout=600),
+            K("H264Depacketizer::push STAP-A (7 B payload)", "c07_h264_stap_a_7", "quick", "bounded", ["H264Depacketizer::push"],
+              "no panic for every aggregation-unit length field; at most two NAL units emitted, each inside the payload", bound="payload 7 bytes: NAL type 24 literal, F/NRI and everything else symbolic; fresh depacketizer", module="media::depacketizer", timeout=600),
+            K("H264Depacketizer::push FU-A (two 4 B payloads)", "c07_h264_fu_a_two_packets_4", "quick", "bounded", ["H264Depacketizer::push"],
+              "start / continuation / end bits, sequence and timestamp continuity: no panic over two consecutive packets with symbolic FU headers, sequence numbers and timestamps", bound="two packets with 4-byte payloads, NAL type 28 literal", module="media::depacketizer", timeout=600),
+            K("H264Depacketizer::push FU-A (1 B payload)", "c07_h264_fu_a_1", "quick", "bounded", ["H264Depacketizer::push"],
+              "an FU indicator without FU header yields no sample and no panic", bound="payload 1 byte", module="media::depacketizer"),
             K("parse_xor_address total (<= 20 B)", "c07_parse_xor_address_total", "quick", "bounded", ["parse_xor_address"],
               "Ok for every value; None exactly for short values / unknown family", bound="value length 0..20 (symbolic), any family", module=SM),
             K("set_extension total on a received 4-byte block", "c07_set_extension_total_4", "thorough", "bounded", ["RtpHeader::set_extension"],
